@@ -43,7 +43,28 @@ CHECKS = {
     "C19": ("pcsim", "exploration",
             "Two real PeerConnections (real ICE, DTLS, SCTP) in one synctest bubble; the simulated network applies a seeded per-datagram fate (delay/jitter => reordering, loss, duplication, corruption, partitions) and then stops injecting faults. Oracle during the run: reliable ordered channels always hold a prefix of what was sent, nothing duplicated, bytes and text/binary flag intact; bounded liveness: 60 s fake after the last fault everything accepted was delivered; in-band channel parameters equal on the remote side.",
             PC_NOTE, TECH_PC, "§6 C19"),
+    "C11": ("pcsim", "exploration",
+            "Seeded search over interleavings of 1-4 tasks calling CreateOffer/CreateAnswer on one real PeerConnection (fresh / holding a remote offer / after a completed exchange), scheduling points at every lock and atomic site of peerconnection.go and sdp.go; single-task cases give the sequential histories. Oracle: one o= session id, pairwise distinct versions, real-time order of calls respected by versions, every call returns.",
+            COOP_NOTE + " The remote description comes from the foreign SDP generator; transports started by the set-up run free, so a few percent of seeds are not bit-reproducible (decision-exact replay).", TECH_COOP + " (focus-coop on peerconnection.go + sdp.go)", "§6 C11"),
 }
+
+SIG_TEXT = {
+    "C01": "Oracle: an executable JSEP/W3C signaling state machine with the four description slots, evaluated after every SetLocal/SetRemoteDescription of seeded histories (<=14 operations; offer/pranswer/answer/rollback; own, stale, empty and garbage descriptions; reordered, duplicated, dropped signaling; raw remote descriptions of any type; valid foreign offers and answers). A call may only succeed along an edge and must land on its target; getters must report pending-else-current; stable implies no pending; completing an exchange must move exactly that offer and answer to current.",
+    "C02": "As C01 with rollbacks on either side, with and without SDP text, after every kind of state. Oracle: rollback succeeds from the side-matching non-stable states, lands in stable with no pending and the last stable current descriptions, and is rejected from stable.",
+    "C03": "As C01 plus signaling tampering (remove mid / ice-ufrag / ice-pwd / fingerprint, corrupt a line, unknown fingerprint hash, unusable codecs, duplicate mids) and wrong-type, stale, empty and garbage descriptions. Oracle: when a Set*Description call returns an error, signaling state, the four descriptions and the number of signaling-state events are what they were before the call.",
+    "C04": "Histories of AddTrack, RemoveTrack, AddTransceiverFromKind/FromTrack, Stop, ReplaceTrack, CreateDataChannel, complete and partial exchanges and Close on a connecting pair (real simulated network so queued work drains, each operation drained with the queue's own Done()). Oracle: OnNegotiationNeeded only in stable and not closed; at most one invocation between two transitions into stable; at least one when an uncovered change exists at a stable, drained point.",
+    "C06": "Every description CreateOffer/CreateAnswer returns during histories of transceiver/track/data-channel changes and renegotiations against the pion peer and foreign offers (numeric, non-numeric, sparse, one-based mids), under each SDPSemantics, BundlePolicy, AlwaysNegotiateDataChannels and fingerprint level, is read with an independent line-level SDP reader: unique mids on every section, BUNDLE = mids of accepted sections, credentials/direction/setup/fingerprint on accepted sections.",
+    "C07": "Every created answer is compared with the remote offer the connection holds (foreign offers mixing audio/video/application/text/message, with and without direction attributes, supported and unsupported codecs; consistent foreign re-offers; pion re-offers): same section count, order, kind and mid.",
+    "C08": "Every created answer is checked against the RFC 3264 §6.1 direction table per section, over local direction/track changes and remote (pion and foreign) re-offers that change directions.",
+    "C09": "Over alternating renegotiations with additions, removals and stops: a transceiver's Mid() never changes once set, a mid keeps its section index in every generated description relative to all applied local and remote descriptions, no index is renamed, CreateOffer does not hand a new transceiver a mid seen before.",
+    "C10": "Every generated media section under random MediaEngine variants (remapped payload types, RTX with and without its primary, direction-limited header extensions), random codec preferences and foreign offers with other payload types / extmap ids: payload types unique, rtpmap/fmtp/rtcp-fb/apt refer to listed payload types, extmap ids unique within 1..14, URIs unique.",
+    "C12": "Every successful Unified-Plan CreateOffer after AddTrack/AddTransceiverFromKind/FromTrack/RemoveTrack/ReplaceTrack/CreateDataChannel histories: bijection between transceivers and media sections (mid, kind, direction), msid and SSRCs (incl. FID/FEC-FR groups) of sending tracks equal to the sender's parameters, application section iff data channel or AlwaysNegotiateDataChannels.",
+    "C16": "Every created answer section is compared with the corresponding offered section: each payload type is listed there and maps to the same codec (mime, clock rate, channels), for foreign offers with remapped payload types, several configurations of one codec, RTX/FEC, unsupported codecs, against random local MediaEngine variants and codec preferences.",
+    "C39": "SetConfiguration is one more generated operation (each of peer identity, certificates, bundle policy, RTCP mux policy, pool size, valid/invalid ICE servers, transport policy changed / unchanged / zero) before and after SetLocalDescription, after exchanges and after Close, on peers with random initial configurations. Oracle: a rejected call leaves GetConfiguration deep-equal; immutable changes return InvalidModificationError; invalid ICE servers are rejected without partial change.",
+}
+SIG_NOTE = PC_NOTE + " Sequential driver: each operation's queued work is drained (bounded fake time) before the next. Descriptions are identified by type + o= line + m-line/mid skeleton. The foreign peer is an SDP text generator that never completes ICE."
+for _pid, _txt in SIG_TEXT.items():
+    CHECKS[_pid] = ("pcsim", "exploration", _txt, SIG_NOTE, TECH_PC + " (sequential signaling driver with simulator-owned signaling channel and foreign-peer generator)", "§6 " + _pid)
 
 ENGINES = [
     {"name": "coop-component", "path": "sim/simrt, sim/cmd/instr, harness/", "kind_free_text": "Engine A: one real component under a seeded cooperative scheduler inside a testing/synctest bubble; exactly replayable"},
